@@ -263,6 +263,25 @@ Qed.
 Lemma mem_self_in' a s : In a s -> mem a s = true.
 Proof. intros H. unfold mem. apply existsb_exists. exists a. split; [exact H|apply Qeq_bool_refl']. Qed.
 
+(* powerset_of_sets only selects elements of the set *)
+Lemma combs_incl : forall l r sub, In sub (combs r l) -> incl sub l.
+Proof.
+  induction l as [|x t IH]; intros r sub H.
+  - destruct r; cbn in H; [destruct H as [<-|[]]; intros y []|contradiction].
+  - destruct r as [|r']; cbn in H.
+    + destruct H as [<-|[]]. intros y [].
+    + apply in_app_or in H as [H|H].
+      * apply in_map_iff in H as (sub' & <- & Hs). intros y [<-|Hy]; [left; reflexivity|right; exact (IH _ _ Hs y Hy)].
+      * intros y Hy. right. exact (IH _ _ H y Hy).
+Qed.
+Lemma powerset_incl l sub : In sub (powerset l) -> incl sub l.
+Proof. unfold powerset. intros H. apply in_flat_map in H as (r & _ & Hr). eapply combs_incl. exact Hr. Qed.
+Lemma vsubset_vset ck sub s : incl sub s -> vsubset (map (cv ck) sub) s = true.
+Proof.
+  intros H. unfold vsubset. apply forallb_forall. intros v Hv. apply in_map_iff in Hv as (x & <- & Hx).
+  unfold cv, vmem. apply mem_self_in'. apply H. exact Hx.
+Qed.
+
 (* ---------- generate_true: the main theorem ---------- *)
 Lemma fixed_safe (P : val -> Prop) vs : Forall P vs -> Safe P (GFun (fixed vs)).
 Proof. intros H. constructor. apply Safe_emit. exact H. Qed.
@@ -373,6 +392,11 @@ Proof.
     eapply rcwr_safe; [exact Hvs|]. intros c2 Hc2 Hl2.
     destruct (all_hashable c2); [|constructor]. constructor; [|constructor].
     apply sat_any; [destruct c2; [discriminate|discriminate]|exact Hc2].
+  - (* Subset *) cbn [gen_true]. apply fixed_safe. apply Forall_forall. intros v Hv. apply in_map_iff in Hv as (sub & <- & Hs).
+    unfold Sat, vset. cbn. f_equal. apply vsubset_vset. apply powerset_incl. exact Hs.
+  - (* RealSubset *) cbn [gen_true]. apply fixed_safe. apply Forall_forall. intros v Hv. apply filter_In in Hv as [Hv Hf].
+    apply in_map_iff in Hv as (sub & <- & Hs). unfold Sat, vset in *. cbn in *. f_equal.
+    rewrite (vsubset_vset ck sub f_v (powerset_incl _ _ Hs)). exact Hf.
   - (* HasKey *) cbn [gen_true]. constructor. eapply S_round with (Q := fun _ => Any).
     + intros j. apply Safe_any.
     + constructor.
